@@ -158,8 +158,12 @@ impl AsyncFileSystem for AsyncOverlayFS {
     async fn append_file(&self, path: &str) -> VfsResult<Box<dyn Write + Send + Unpin>> {
         let write_path = self.write_path(path)?;
         if !write_path.exists().await? {
+            let read_path = self.read_path(path).await?;
+            if read_path.metadata().await?.file_type != VfsFileType::File {
+                return Err(VfsErrorKind::Other("Not a file".into()).into());
+            }
             self.ensure_has_parent(path).await?;
-            self.read_path(path).await?.copy_file(&write_path).await?;
+            read_path.copy_file(&write_path).await?;
         }
         write_path.append_file().await
     }
